@@ -7,8 +7,8 @@ IDS = ["C%02d" % i for i in range(1, 21)]
 CHECKS = {
     "C01": dict(
         technique="differential execution inside TLC: Exec.tla (small-step wasm-subset semantics, one state per instruction) runs input and output module over the same call sequence and compares observations",
-        text="Exec.tla interprets an i32 subset (locals, globals, structured control, br/br_if/br_table, call, call_indirect, byte/word loads and stores on several memories, host calls, instantiation with active segments and a start function). For each generated module of the subset and each fixture in it, TLC instantiates and executes the input and the walrus output on one instance each over the same calls (every exported function, twice) and requires equal instantiation outcome, results/traps, host-call trace and exported globals/memories/tables. Body.tla supplies the design-level fact that elision preserves order. In addition every valid control string (if/else/block/br/br_if/br_table/return/unreachable, nesting <= 3) up to length 7 enumerated from Body.tla is made executable (a host-call marker before every symbol, conditions taken from the argument bits) and run for all 8 condition vectors; multi-table modules exercise call_indirect per table; the import linkage (module, field, kind) of input and output is compared; an output that leaves the executable subset of its input is reported.",
-        note="Trusted: TLC; the projection of binaries into Exec programs (wasmparser). Values are in Z/2^15; the subset excludes floats, SIMD, atomics, 64-bit and reference instructions - for those C01 follows from C03 (every operator/immediate/operand preserved) and C04. Function identity across the round trip is read off walrus's index maps.",
+        text="Exec.tla interprets an i32 subset (locals, globals, structured control, br/br_if/br_table, call, call_indirect, byte/word loads and stores on several memories, memory.size/grow/copy/fill/init, data.drop, table.size/copy/init/get/set/fill/grow, elem.drop, ref.null/ref.func/ref.is_null over several tables, host calls, instantiation with active/passive/declared segments and a local or imported start function). For each generated module of the subset and each fixture in it, TLC instantiates and executes the input and the walrus output on one instance each over the same calls (every exported function, twice) and requires equal instantiation outcome, results/traps, host-call trace and exported globals/memories/tables. Body.tla supplies the design-level fact that elision preserves order. In addition every valid control string (if/else/block/br/br_if/br_table/return/unreachable, nesting <= 3) up to length 7 enumerated from Body.tla is made executable (a host-call marker before every symbol, conditions taken from the argument bits) and run for all 8 condition vectors; multi-table modules exercise call_indirect per table; the import linkage (module, field, kind) of input and output is compared; an output that leaves the executable subset of its input is reported.",
+        note="Trusted: TLC; the projection of binaries into Exec programs (wasmparser). Values are in Z/2^15; the subset excludes floats, SIMD, atomics and 64-bit instructions (reference values only flow between ref.func / ref.null and tables) - for those C01 follows from C03 (every operator/immediate/operand preserved) and C04. Function identity across the round trip is read off walrus's index maps.",
         design_ref="DESIGN.md §5 C01"),
     "C05": dict(
         technique="gate model ParseGate.tla model-checked; acceptance relation outcome=ok <=> independent validator verdict and hook-event gate order judged by TLC on recorded parses (Trace_Parse.tla)",
@@ -32,7 +32,7 @@ CHECKS = {
         design_ref="DESIGN.md §5 C11"),
     "C15": dict(
         technique="trace validation of TLC-enumerated build histories against Builder.tla (re-executed by TLC, Flatten computed in TLA+), design invariants TreeShaped/FlatBalanced/BranchesInRange; Locals.tla (slot assignment) model-checked and its behaviours replayed through FunctionBuilder (Trace_Locals.tla)",
-        text="Builder.tla models the FunctionBuilder arena (append and positional insert of stack-neutral units, block_at/loop_at/if_else_at, dangling sequences attached later, br/br_if to enclosing sequences) and defines the in-order flattening with label depths. TLC enumerates every build history up to the bound (and random longer walks); each is replayed on the real builder (closure API at the end of a sequence, *_at API elsewhere), finished and emitted; the trace spec re-executes the history with the same actions and requires the decoded body to equal Flatten modulo an injective, type-preserving local map with the parameter pinned. Histories also attach dangling sequences as if/else arms, place br_table, use two parameters allocated out of id order; structure-only histories one step longer are enumerated separately. Locals.tla: locals allocated in any order, any of them parameters, the body naming some; the emitted slots must pin parameters, be injective and type preserving.",
+        text="Builder.tla models the FunctionBuilder arena (append and positional insert of stack-neutral units, block_at/loop_at/if_else_at, blocks and loops with signatures (i32)->(i32) and ()->(i32) made by InstrSeqType::new, dangling sequences attached later, br/br_if/br_table to enclosing sequences, value-carrying branches) and defines the in-order flattening with label depths. TLC enumerates every build history up to the bound (and random longer walks); each is replayed on the real builder (closure API at the end of a sequence, *_at API elsewhere), finished and emitted; the trace spec re-executes the history with the same actions and requires the decoded body to equal Flatten modulo an injective, type-preserving local map with the parameter pinned. Histories also attach dangling sequences as if/else arms, place br_table, use two parameters allocated out of id order; structure-only histories one step longer are enumerated separately. Locals.tla: locals allocated in any order, any of them parameters, the body naming some; the emitted slots must pin parameters, be injective and type preserving.",
         note="Trusted: wasmparser operator decoding, TLC. Units are stack-neutral by construction, so every enumerated tree is well typed; other instruction kinds are covered by C03.",
         design_ref="DESIGN.md §5 C15"),
     "C16": dict(
@@ -51,9 +51,9 @@ CHECKS = {
         note="Trusted: TLC, the public accessors used for the snapshot, wasmparser validator. The behavioural effect is derived from the state relation (callers keep naming the same id), not executed.",
         design_ref="DESIGN.md §5 C18"),
     "C13": dict(
-        technique="names relation (forward / converse, modulo sigma and the observed local map) evaluated by TLC on recorded round trips (Trace_Names.tla); Locals.tla behaviours replayed through FunctionBuilder with named locals (Trace_Locals.tla, name conjuncts)",
+        technique="names relation (forward / converse, modulo sigma and the observed local map) evaluated by TLC on recorded round trips (Trace_Names.tla); Locals.tla behaviours replayed through FunctionBuilder with named locals (Trace_Locals.tla, name conjuncts); NameMap.tla (names resolved through the parse-time index map, carried by entities, re-indexed at emission) model-checked, its behaviours replayed on real Modules with content-recognisable entities and validated step by step (Trace_NameMap.tla)",
         text="For every recorded round trip (with and without GC) TLC checks that each input name of a still-emitted entity (module, function, local, type, table, memory, global, element, data) is attached to the renumbered entity in the output name section and that every output name has such an origin (no migration); local names use the local correspondence observed by aligning local operands of the surviving operators; tolerated: unused locals/parameters, label/field/tag subsections, merged types.",
-        note="Trusted: wasmparser name-section reader, TLC. The design-level part is the renumbering model (Walrus.tla); the names relation itself is only checked on the implementation. Functions whose local alignment is ambiguous are skipped for local names (counted in the evidence).",
+        note="Trusted: wasmparser name-section reader, TLC. The design-level parts are the renumbering model (Walrus.tla) and NameMap.tla (7 invariants, two slip switches that must each yield a counterexample); the forward/converse names relation on arbitrary modules is checked on the implementation. Functions whose local alignment is ambiguous are skipped for local names (counted in the evidence).",
         design_ref="DESIGN.md §5 C13"),
     "C17": dict(
         technique="trace validation of recorded collection-API histories against the actions of Arena.tla (TLC); histories enumerated exhaustively by TLC; Types.tla (the type interner in its setting) model-checked and its behaviours replayed on real Modules (Trace_Types.tla)",
